@@ -160,6 +160,9 @@ func (g *Gen) numText() string {
 
 func (g *Gen) bytesVal() []byte {
 	n := g.R.Range(0, 3)
+	if g.R.Chance(1, 8) { // now and then long enough to reach past the header of a neighbouring entry in a file buffer
+		n = g.R.Range(5, 14)
+	}
 	b := make([]byte, n)
 	for i := range b {
 		b[i] = byte("xyz\x00\xff7"[g.R.Intn(6)])
